@@ -2524,13 +2524,19 @@ func (r *client) resolveSerializer(message any) remote.Serializer {
 	if msgType == nil {
 		return r.dispatcher
 	}
+	// 1. Exact concrete type: a serializer registered for the message's
+	// dynamic type wins over any interface registration, wherever it sits in
+	// the slice (the default proto.Message entry is always first).
 	for i := range r.serializers {
 		entry := &r.serializers[i]
-		if entry.iface.Kind() == reflect.Interface {
-			if msgType.Implements(entry.iface) {
-				return entry.serializer
-			}
-		} else if msgType == entry.iface {
+		if entry.iface.Kind() != reflect.Interface && msgType == entry.iface {
+			return entry.serializer
+		}
+	}
+	// 2. Interface match: the first registered interface the message implements.
+	for i := range r.serializers {
+		entry := &r.serializers[i]
+		if entry.iface.Kind() == reflect.Interface && msgType.Implements(entry.iface) {
 			return entry.serializer
 		}
 	}
